@@ -7,7 +7,7 @@ from ..runner import run_coexec, replay_coexec
 MODULE = "Props.C11"
 THEOREMS = ["C11_unwinding_drop_silent", "C11_scope_left_by_panic", "C11_state_after_caught_panic", "C11_nonvacuous"]
 
-RULE = ("the crash matrix, enumerated: panic origin {user code before the drop (drop while unwinding), answer function, Clone of the returned "
+RULE = ("the crash matrix, enumerated: panic origin {user code before the drop (drop while unwinding), matcher (unordered / ordered), answer function, Clone of the returned "
         "value, real (unmocked) function, default body, and each mock-induced error kind: no implementation, no matching pattern, wrong order, "
         "out of range, inputs not matched, single-use value twice, explicit panics(), missing real function, missing default body} x topology "
         "{original only; clone alive on the same thread; the panicking scope owns a clone; original with delegation helper; original holding a "
@@ -27,6 +27,8 @@ def configs():
         C.append(("user:clone", [t(0, "each", 255, [("ret", 1002), ("al", 0)]), bg], (0, 3), None))
         C.append(("user:real", [t(0, "each", 255, [("unm",)]), bg], (0, 3), 1))
         C.append(("user:dflt", [t(2, "each", 255, [("dfl",)]), bg], (2, 3), 2))
+        C.append(("user:matcher", [t(0, "each", (1 << 16) | 255, [("ret", 1)]), bg], (0, 7), None))
+        C.append(("user:matcher(ordered)", [t(0, "next", (1 << 16) | 255, [("ret", 1)]), bg], (0, 7), None))
         C.append(("NoMockImplementation", [bg], (0, 3), None))
         C.append(("NoMatchingCallPatterns", [t(0, "each", 2, [("ret", 1)]), bg], (0, 3), None))
         C.append(("CallOrderNotMatched", [t(0, "next", 255, [("ret", 1)]), t(2, "next", 255, [("ret", 2)]), bg], (2, 3), None))
